@@ -20,6 +20,7 @@ DECIDED += "; R10 no panicking arithmetic on the guest's offset in the executors
 DECIDED += '; R4 also: the short-read draw starts at 1 and the injected flush follows the write, in the ring as in the file API'
 DECIDED += "; R11 the file shim's two fd tables (open_handles, direct_io_fds) are extended and shrunk together; flag rejection never tests that a masked bit is absent"
 DECIDED += '; R1 also: a found target is removed from whichever pool holds it; R4 also: the alignment check precedes the injected-fault draw; R12 PendingApply::execute is called only from the completion drain; the flush result is the fsync result (shared C07-R7)'
+DECIDED += "; the entered ring registry is restored on every path of the guard's Drop (shared C01-R8)"
 ASSUMPTIONS = ["the consumer keeps buffers alive until the CQE is reaped (io_uring contract)"]
 
 RS = "turmoil_io_uring::sim::RingState::"
